@@ -10,6 +10,7 @@ THEOREMS = [
             "Lou.C06Pass.backTest_bounds", "Lou.C06Pass.backStage_contract", "Lou.C06Pass.backStage_total", "Lou.C06Pass.backAction_replaces_brackets",
             "Lou.ModelEngine.callFwd_eq", "Lou.ModelEngine.callBack_eq",
             "Lou.ModelEngine.engineFor_ok", "Lou.FwdCOK.translateC_contract", "Lou.FwdCOK.actionC_ok",
+            "Lou.ModelEngine.engineForBack_ok", "Lou.BackCOK.translateC_contract", "Lou.BackCOK.actionC_ok",
 ]
 
 CLAIM = dict(
@@ -173,8 +174,8 @@ def layer_b(v, exe, rng, tier, dist):
             for pr in R["passes"]:
                 if pr["pass"] == 1:
                     # the main pass as a stage: F0 + context rules (LouModel/ForwardCtx.lean), forward direction
-                    if not pr["dir"] and c.id.startswith("c06-lb"):
-                        lines.append("MFWD %s %s %d - %s" % (c.meta["tn"], op.split(" ")[2], pr["max"], common.wide(pr["in"])))
+                    if c.id.startswith("c06-lb"):
+                        lines.append("%s %s %s %d - %s" % ("MBWD" if pr["dir"] else "MFWD", c.meta["tn"], op.split(" ")[2], pr["max"], common.wide(pr["in"])))
                         tags.append(("main", c, op, pr))
                     continue
                 lines.append("MPASS %s %s %d %d %s" % (c.meta["tn"], "b" if pr["dir"] else "f", pr["pass"], pr["max"], common.wide(pr["in"])))
@@ -198,13 +199,22 @@ def layer_b(v, exe, rng, tier, dist):
             continue
         if tg[0] == "main":
             _, c, op, pr = tg
-            if m.startswith("UNSUPPORTED") or m == "BADOP":
+            if m.startswith("UNSUPPORTED") or m in ("BADOP", "FUEL", "FAILED"):
                 n["main_unsupported"] = n.get("main_unsupported", 0) + 1
                 continue
-            n["main_stages_compared"] = n.get("main_stages_compared", 0) + 1
+            n["main_stages_compared" + ("_back" if pr["dir"] else "")] = n.get("main_stages_compared" + ("_back" if pr["dir"] else ""), 0) + 1
             v.cov["evaluations"] += 1
             exp = "P %s %s %d" % (common.wide(pr["out"]), ",".join(str(x) for x in pr["map"]) or ".", pr["realInlen"])
             got = " ".join(m.split(" ")[:4])
+            if pr["dir"]:
+                # backward: positions the pass never wrote are unspecified (the model prints '?')
+                g = got.split(" "); e = exp.split(" ")
+                gm = [] if g[2] == "." else g[2].split(",")
+                em = [] if e[2] == "." else e[2].split(",")
+                gm = gm[: len(em)]
+                em = [x if y != "?" else "?" for x, y in zip(em, gm)]
+                exp = " ".join([e[0], e[1], ",".join(em) or ".", e[3]])
+                got = " ".join([g[0], g[1], ",".join(gm) or ".", g[3]])
             if exp != got:
                 bad.append("main pass with context rules, %s (capacity %d, input %s)\n impl  %s\n model %s\n%s" % (
                     op[:80], pr["max"], common.wide(pr["in"]), exp[:300], m[:300], c.meta["text"][:600]))
